@@ -14,6 +14,7 @@ import (
 	"strings"
 	"sync"
 	"syscall"
+	"verifharness/vals/model"
 
 	"github.com/octohelm/gengo/pkg/gengo"
 	"github.com/octohelm/gengo/pkg/gengo/snippet"
@@ -153,6 +154,10 @@ func (g *core) render(c gengo.Context, parts []proto.Part) {
 				c.Render(snippet.Value(map[uint64]int{1: 1, 20: 2, 3: 3, math.MaxUint64: 4, 9223372036854775808: 5}))
 			case "int-keys":
 				c.Render(snippet.Value(map[int]string{10: "a", 9: "b", -1: "c", 100: "d", 2: "e"}))
+			case "clash-values":
+				c.Render(snippet.Value(model.Table))
+			case "clash-values-int":
+				c.Render(snippet.Value(model.ByID))
 			case "bool-keys":
 				c.Render(snippet.Value(map[bool]int{true: 1, false: 0}))
 			default:
